@@ -7,6 +7,7 @@
  "annotate": ["util/entropy.c"],
  "defines": ["VERIF_HALLOC"],
  "models": ["models/drbg_os.c"],
+ "fallback_unwind": 4,
  "timeout": 300,
  "assumptions": ["open(2)/read(2)/close(2) per POSIX (models/drbg_os.c): read returns -1, 0 or any count up to the request, storing exactly that many arbitrary bytes",
                  "buffer object <= ER_MAXOBJ bytes (object size only; the read loop is closed by its contract)"]
